@@ -25,7 +25,9 @@ ASSUMPTIONS = ["boundaries are library/stdlib seams patched inside the harness's
 TASK_TIMEOUT = 1200
 
 
-def project(nfiles, fmt):
+def project(nfiles, fmt, mode=None):
+    import hashlib
+
     files = {
         "test_a.py": "from inline_snapshot import snapshot, outsource\n\n\ndef test_a():\n    assert outsource('data-a') == snapshot()\n    assert [1, 2] == snapshot([1])\n",
         "test_b.py": "from inline_snapshot import snapshot\n\n\ndef test_b():\n    assert 'b' == snapshot('x')\n    assert 5 == snapshot()\n",
@@ -35,20 +37,28 @@ def project(nfiles, fmt):
     if nfiles == 2:
         files = {"test_a.py": files["test_a.py"], "test_b.py": files["test_b.py"]}
     files["pyproject.toml"] = '[tool.inline-snapshot]\nformat-command="cat"\n' if fmt == "cmd" else ""
+    if mode == "trim":
+        # an unchanged file that references a persisted external, and an unreferenced persisted external: with trim
+        # approved the second may go, the first must stay whatever fails on the way
+        hd, hu = hashlib.sha256(b"data-d").hexdigest(), hashlib.sha256(b"unused").hexdigest()
+        files["test_d.py"] = ("from inline_snapshot import snapshot, outsource, external\n\n\ndef test_d():\n"
+                              "    assert outsource('data-d') == snapshot(external(\"%s*.txt\"))\n" % hd[:12])
+        files[".inline-snapshot/external/%s.txt" % hd] = "data-d"
+        files[".inline-snapshot/external/%s.txt" % hu] = "unused"
     return files
 
 
 def bounds(tier):
-    return {"configs": ["black", "cmd"], "files": [3] if tier == "quick" else [1, 2, 3], "kinds": faults.KINDS, "fault_pairs": "none" if tier == "quick" else "survivable formatter fault x later fault at open/write/rename/formatter boundaries (3-file change set)"}
+    return {"modes": ["create,fix", "create,fix,trim with a referenced and an unreferenced persisted external"], "configs": ["black", "cmd"], "files": [3] if tier == "quick" else [1, 2, 3], "kinds": faults.KINDS, "fault_pairs": "none" if tier == "quick" else "survivable formatter fault x later fault at open/write/rename/formatter boundaries (3-file change set)"}
 
 
-def _run(files, target, second=True):
+def _run(files, target, second=True, flags="create,fix"):
     """Session with an optional fault, then a plain session. Returns dict."""
     from ..drivers import plugin
 
     d = plugin.mk_project(files)
     try:
-        r = plugin.session(d, ["--inline-snapshot=create,fix"], preexec=faults.make(target), timeout=120)
+        r = plugin.session(d, ["--inline-snapshot=" + flags], preexec=faults.make(target), timeout=120)
         s1 = plugin.listing(d)
         counts = None
         if ".counts.json" in s1:
@@ -108,9 +118,13 @@ def _check_state(state, old, new_ast, label, prefix_of=None):
     return None
 
 
+def _flags(case):
+    return "create,fix,trim" if case.get("mode") == "trim" else "create,fix"
+
+
 def run_case(case):
-    files = project(case["nfiles"], case["fmt"])
-    base = _run(files, None, second=False)
+    files = project(case["nfiles"], case["fmt"], case.get("mode"))
+    base = _run(files, None, second=False, flags=_flags(case))
     new_ast = {}
     new_bytes = {}
     for k, v in base["s1"].items():
@@ -123,7 +137,7 @@ def run_case(case):
 def _judge(case, files, new_ast, new_bytes=None):
     from ..drivers import plugin
 
-    res = _run(files, case["target"])
+    res = _run(files, case["target"], flags=_flags(case))
     viol = []
     r = res["r"]
     if not res["fired"]:
@@ -155,8 +169,9 @@ def _judge(case, files, new_ast, new_bytes=None):
 
 def explore(tier, seed, runner):
     done = []
-    combos = [(3, "black"), (3, "cmd")] if tier == "quick" else [(n, f) for n in (1, 2, 3) for f in ("black", "cmd")]
-    rec_tasks = [{"record": {"nfiles": n, "fmt": f}} for n, f in combos]
+    combos = [(3, "black", None), (3, "cmd", None), (3, "black", "trim")] if tier == "quick" else (
+        [(n, f, None) for n in (1, 2, 3) for f in ("black", "cmd")] + [(3, "black", "trim"), (3, "cmd", "trim"), (1, "black", "trim")])
+    rec_tasks = [{"record": {"nfiles": n, "fmt": f, "mode": m}} for n, f, m in combos]
     recs = runner(rec_tasks)
     tasks = []
     for t, r in zip(rec_tasks, recs):
@@ -170,8 +185,8 @@ def explore(tier, seed, runner):
         for b, n in sorted(counts.items()):
             for i in range(n):
                 for k in faults.KINDS[b]:
-                    cases.append({"nfiles": t["record"]["nfiles"], "fmt": t["record"]["fmt"], "target": [b, i, k]})
-        if tier == "thorough" and t["record"]["nfiles"] == 3:
+                    cases.append({"nfiles": t["record"]["nfiles"], "fmt": t["record"]["fmt"], "mode": t["record"]["mode"], "target": [b, i, k]})
+        if tier == "thorough" and t["record"]["nfiles"] == 3 and not t["record"]["mode"]:
             # pairs: a survivable formatter fault followed by any fault at a later write-path boundary
             first = [c["target"] for c in cases if (c["target"][0], c["target"][2]) in (("format_str", "raise"), ("sp_run", "nonzero"), ("sp_run", "killed"), ("sp_run", "garbage"))]
             second = [c["target"] for c in cases if c["target"][0] in ("open_bw", "write", "rename", "format_str", "sp_run")]
@@ -191,8 +206,8 @@ def run_task(task):
     out = {"n": 0, "nontrivial": [], "outcomes": {}, "violations": [], "samples": []}
     if "record" in task:
         c = task["record"]
-        files = project(c["nfiles"], c["fmt"])
-        base = _run(files, None, second=True)
+        files = project(c["nfiles"], c["fmt"], c.get("mode"))
+        base = _run(files, None, second=True, flags=_flags(c))
         out["n"] = 1
         if not base["counts"]:
             out["violations"].append({"case": task, "what": "harness-recording-failed", "detail": base["r"]["out"][-800:]})
@@ -205,11 +220,11 @@ def run_task(task):
         out["counts"] = base["counts"]["counts"]
         out["new_ast"] = new_ast
         out["new_bytes"] = {k: v for k, v in base["s1"].items() if k.endswith(".py")}
-        out["outcomes"]["recording:%s:%d" % (c["fmt"], c["nfiles"])] = 1
+        out["outcomes"]["recording:%s:%d:%s" % (c["fmt"], c["nfiles"], c.get("mode"))] = 1
         out["samples"].append({"config": c, "boundary_calls_during_sessionfinish": base["counts"]["counts"]})
         return out
     for case in task["cases"]:
-        files = project(case["nfiles"], case["fmt"])
+        files = project(case["nfiles"], case["fmt"], case.get("mode"))
         vs = _judge(case, files, task["new_ast"], task.get("new_bytes"))
         out["n"] += 1
         tg = case["target"]
